@@ -17,7 +17,8 @@ import (
 // not have are taken as zero (seed C13-f: the argument of a CBOR head copied
 // into a fixed 8-byte buffer, so a head cut short was accepted).  Every copy
 // in the named functions must (a) have its count used, (b) have a destination
-// made with the length of the source, or (c) be dominated by a comparison on
+// made with the length of the source (possibly a window of it: a prepend
+// copies into made[1:]), or (c) be dominated by a comparison on
 // the length of the source's base.  Index and slice expressions need no such
 // rule: they fault on a short operand.
 func copiesAreExact(e *Env, floor int, prefixes ...string) {
@@ -42,7 +43,7 @@ func copiesAreExact(e *Env, floor int, prefixes ...string) {
 					continue
 				}
 				sp := prov.Of(src)
-				if dp := prov.Of(dst); strings.HasPrefix(dp, "make(") && strings.Contains(dp, "len("+sp+")") {
+				if dp := prov.Of(dst); strings.Contains(dp, "make(") && strings.Contains(dp, "len("+sp+")") {
 					e.R.OK("COPYLEN", key, e.P.InstrPos(in), "the destination was made with the length of the source")
 					continue
 				}
